@@ -44,7 +44,7 @@ class Unit:
 
     def __init__(self, name, harness, entry, flags=None, note="", bounds=""):
         self.name = name
-        self.harness = ["intrinsics.go", "world_native.go"] + [h for h in harness if h != "world_native.go"]
+        self.harness = ["intrinsics.go", "world_native.go", "common.go"] + [h for h in harness if h not in ("world_native.go", "common.go")]
         self.entry = entry
         self.flags = flags or {}
         self.note = note
